@@ -16,7 +16,9 @@ Proof. reflexivity. Qed.
    finish = once{close(done); close(output)}, cancel = once{retErr.Set; drain(source); finish}, reducer goroutine
    with deferred drain(collector); recover -> panicChan.write; finish. *)
 Lemma link_mapReduceWithPanicChan : C07_Gen.sk_mapReduceWithPanicChan =
-  ["buildOptions"; "make"; "defer:func"; "{"; "panic"; "}"; "make"; "make"; "newGuardedWriter";
+  ["buildOptions"; "make"; "defer:func"; "{"; "panic";
+   "select"; "case:"; "recv:panicChan.channel"; "panic"; "default:";      (* e753473: Model deferred_outcome *)
+   "}"; "make"; "make"; "newGuardedWriter";
    "close"; "close"; "closeOnce.Do"; "retErr.Set"; "retErr.Set"; "drain"; "finish"; "once";
    "go:func"; "{"; "defer:func"; "{"; "drain"; "recover"; "panicChan.write"; "finish"; "}"; "reducer"; "}";
    "go:executeMappers";
